@@ -134,4 +134,36 @@ CHECKS["C19"] = dict(
          "dtypes are compared on real replay only. Trusted: z3, forksym, the pandas model.",
     design_ref="DESIGN.md §4 C19", engine="forksym+z3 over sympd model")
 
+_tv("C04", "SQL text of the real to_sql under every option combination (use_with, use_cte_elim, annotate, initial_commas, sql_indent) x extend merging on/off x dialect: "
+    "parse trees identical to the baseline are discharged syntactically, every distinct tree is interpreted over the same symbolic tables and compared with the "
+    "baseline tree by z3; to_sql must be idempotent.",
+    "translation validation between SQL texts generated under different options (syntactic discharge + z3 per-path equality of interpreted queries)", "DESIGN.md §4 C04")
+_tv("C11", "Near-miss pipeline pairs (one argument of one step changed): the real == is evaluated; every pair that compares equal must have identical SQL in five "
+    "dialects and is executed by the real Pandas executor over the pandas model on the same symbolic tables (z3 per-path equality); reflexivity and symmetry.",
+    "equality-implies-equivalence: real == on enumerated near-miss pairs, then z3 per-path semantic equality + SQL text equality", "DESIGN.md §4 C11")
+_tv("C12", "Printed forms (to_python plain/black, repr) are re-evaluated with the repository's eval_da_ops: == with the original, and original vs re-built pipeline "
+    "executed by the real Pandas executor over the pandas model on the same symbolic table with z3 deciding equality (uninterpreted ** / functions make regrouping "
+    "visible); pickle round trip.",
+    "print/re-parse round trip decided by z3 semantic equality of original and re-built pipeline + structural ==", "DESIGN.md §4 C12")
+_tv("C15", "r(sem(P)(T)) versus sem(rP)(rT) for injective renamings of one column / table into the internal-name vocabulary harvested from the current source "
+    "(scratch columns, join suffixes, generated view and alias names); z3 per-path equality on the Pandas executor over the model and on the SQLite SQL text.",
+    "relational symbolic execution under renaming into harvested internal names (z3 per-path equality)", "DESIGN.md §4 C15")
+CHECKS["C14"] = dict(
+    category="other",
+    technique="CrossHair (symbolic execution over z3) contracts on the real quoting functions against per-dialect reference lexers + whole-pipeline flow of adversarial strings on real SQLite",
+    text="For all strings within the stated length bound (and structured long inputs) the reference lexer of each of five dialects reads quote_string / quote_identifier / "
+         "value lists of the REAL dialect models back verbatim (CrossHair 'Confirmed over all paths', counterexamples re-evaluated concretely); adversarial strings incl. the "
+         "solver's counterexamples are pushed through whole pipelines at every site user text reaches SQL and executed on real SQLite against the Pandas result.",
+    note="Lexers for MySQL/BigQuery/Spark are models from documentation (no engines here). whole to_sql and the lark re-parse are outside CrossHair's reach: the flow part is "
+         "concrete. 'Not confirmed' contracts are listed as inconclusive. Bound: len <= 3 quick / 4 thorough; 12 quotes / 6 backslashes structured.",
+    design_ref="DESIGN.md §4 C14", engine="crosshair+z3")
+CHECKS["C26"] = dict(
+    category="other",
+    technique="solver-enumerated equality patterns of symbolic column names (z3 Strings, forksym) driving a differential build: step on the real prefix vs on a fresh description; plus a documented-rule table",
+    text="For every prefix (incl. ones the builder simplifies away) x step kind the step's column arguments are symbolic strings; each solver-feasible equality pattern "
+         "with the names the builder can compare against is one path on which the step is built on the prefix and on a fresh TableDescription of the prefix's columns: "
+         "accept/reject and declared columns must agree. Documented rules: one violating and one conforming step per rule after every prefix.",
+    note="Expressions inside steps are concrete text (lark is opaque). The rule table is finite and written from the property statement. Trusted: z3, forksym.",
+    design_ref="DESIGN.md §4 C26", engine="forksym+z3")
+
 NOT_YET = {}
